@@ -37,7 +37,7 @@ def skip_attr(skip):
     return {"none": "", "serde": "#[serde(skip)]", "typeshare": "#[typeshare(skip)]"}[skip]
 
 
-LAYOUTS = ["one_file", "bad_file_first", "bad_file_last"]          # MC_C08!Layouts
+LAYOUTS = ["one_file", "bad_file_first", "bad_file_last", "folder_bad_crate_first", "folder_bad_crate_last"]          # MC_C08!Layouts
 SUPPORT = "#[typeshare]\npub struct Gen<X> { pub g: X }\n#[typeshare]\npub struct Fine { pub ok: u32 }\n"
 
 
@@ -148,8 +148,16 @@ def run(chk):
         d = os.path.join(work, f"k{i}")
         layout = LAYOUTS[(i // step) % len(LAYOUTS)]
         env = {}
+        folder = layout.startswith("folder_")
+        if folder and lang == "go":
+            lang = "typescript"          # Go has no folder mode
         if layout == "one_file":
             cli.make_tree(d, {"src/lib.rs": source(c)})
+        elif folder:       # the offending item alone in its crate; a crate of valid items is written before / after it
+            src = source(c)
+            assert src.startswith(SUPPORT)
+            bad, good = ("aaa_bad", "zzz_good") if layout == "folder_bad_crate_first" else ("zzz_bad", "aaa_good")
+            cli.make_tree(d, {f"{bad}/src/host.rs": f"use {good}::Gen;\n" + src[len(SUPPORT):], f"{good}/src/support.rs": SUPPORT})
         else:       # the offending item alone in its file; a file of valid items arrives after / before it
             src = source(c)
             assert src.startswith(SUPPORT)
@@ -157,6 +165,16 @@ def run(chk):
             env = {"TYPESHARE_VERIF_ORDER": ",Host,HOST,Gen" if layout == "bad_file_first" else "Gen,Host,HOST,", "TYPESHARE_VERIF_THREADS": "2"}
         out = os.path.join(d, "out")
         os.makedirs(out)
+        if folder:
+            # previous outputs of both crates (Swift names its files in Pascal case) and nothing else
+            for cn in (bad, good):
+                fn = ("".join(p.capitalize() for p in cn.split("_")) if lang == "swift" else cn) + "." + common.EXT[lang]
+                open(os.path.join(out, fn), "w").write("// previous output\n")
+            before = cli.snapshot(out)
+            time.sleep(0.002)
+            r = cli.run_cli(["-l", lang] + LANG_ARGS[lang] + ["-d", out, d], env=env, timeout=20)
+            after = cli.snapshot(out)
+            return c, lang + "+" + layout, r, before != after
         outfile = os.path.join(out, "out." + common.EXT[lang])
         open(outfile, "w").write("// previous output\n")
         before = cli.snapshot(out)
